@@ -7,7 +7,7 @@ import CpModel.RedirQ
 
       B METH TB STREAM CL STATUS SHAPE ITEMS END CLOSE TAMPER_S TAMPER_H READS CLOSES
         ITEMS = - | word over b e s i x      CLOSE = absent|ok|raise|arg
-      R METH TB PATH QS READS CLOSES { | PAGEPATH { COND TPATH TQS } }
+      R METH TB SN PATH QS READS CLOSES { | PAGEPATH { COND TPATH TQS } }      SN = SCRIPT_NAME
         COND = always|q|noq|v<k>             `-` = the empty string
 
   Output `S=<start_response calls code.excinfo,…> X=<escaped> R=<on_end_request runs>` plus, for B,
@@ -92,6 +92,8 @@ structure Rule where
 
 structure RPlan where
   head : Bool
+  /-- SCRIPT_NAME: the mount point of the application -/
+  sn : String
   start : Url
   reads : Option Nat
   closes : Nat
@@ -150,9 +152,9 @@ def splitBar : List String → List (List String)
 
 def parseR (toks : List String) : Option RPlan :=
   match splitBar toks with
-  | [m, _tb, path, qs, rd, cls] :: pages => do
+  | [m, _tb, sn, path, qs, rd, cls] :: pages => do
     let head ← if m == "head" then some true else if m == "get" || m == "post" then some false else none
-    pure { head := head, start := { path := path, qs := untok qs }, reads := ← Proto.optNat? rd
+    pure { head := head, sn := untok sn, start := { path := path, qs := untok qs }, reads := ← Proto.optNat? rd
            closes := ← cls.toNat?, pages := ← pages.mapM parsePage }
   | _ => none
 
@@ -160,7 +162,7 @@ def showUrls (l : List Url) : String :=
   if l.isEmpty then "-" else ",".intercalate (l.map fun u => s!"{u.path}?{u.qs}")
 
 def showR (pl : RPlan) : String :=
-  let (res, reqs) := redirector (uriKey "") (rApp pl.pages) rFuel 0 [] pl.start
+  let (res, reqs) := redirector (uriKey pl.sn) (rApp pl.pages) rFuel 0 [] pl.start
   let n := reqs.length
   let closed := if pl.closes > 0 then 1 else 0
   -- HEAD concerns the first request only: a redirected request is a GET
